@@ -100,5 +100,20 @@ def chomsky (cfg answer : String) (phase : Nat) (start : String) (len : Nat) : V
   | .ok (G, _), .ok (G1, _) => ofBool (Check.chomskyCheck G G1 phase start len)
   | _, _ => .error
 
+/-- `check_dfa_language_from_file(text, filename, length)`: the reference automaton is read from a `.dfa` file -/
+def dfaLanguageFile (answer refText : String) (len : Nat) : Verdict :=
+  match parseDfa answer.toList, parseDfa refText.toList with
+  | .ok A, .ok D => ofBool (Check.equalLanguages (A.wordsUpTo len) (D.wordsUpTo len))
+  | _, _ => .error
+
+/-- `check_nfa_language_from_file(text, filename, length)` with a `.nfa` reference file -/
+def nfaLanguageFile (answer refText : String) (s : Sched) (len : Nat) : Verdict :=
+  match parseNfa answer.toList, parseNfa refText.toList with
+  | .ok A, .ok N =>
+    match A.wordsUpTo s len, N.wordsUpTo s len with
+    | .ok L1, .ok L2 => ofBool (Check.equalLanguages L1 L2)
+    | _, _ => .error
+  | _, _ => .error
+
 end CheckText
 end Gamba
